@@ -45,9 +45,14 @@ Definition finalize (c : list insn) : list insn := finalize_from 0 c.
 
 Section Gen.
   Variable p : program.
-  Variable locals : list string.      (* the function's (or file's) local slots, by index *)
+  Variable locals : list string.      (* the function's (or file's) local slots, by index; slots of comprehension
+                                         variables appear under names no identifier can have *)
 
-  Definition gen_name (x : string) (ps : pos) : insn :=
+  (* cs: the variables of the enclosing comprehensions (innermost first) with their slots *)
+  Definition gen_name (cs : list (string * nat)) (x : string) (ps : pos) : insn :=
+    match assoc x cs with
+    | Some i => LOCAL i ps
+    | None =>
     match index_of x locals with
     | Some i => LOCAL i ps
     | None => match gidx p x with
@@ -55,13 +60,16 @@ Section Gen.
               | None => if str_in x predeclared_names then PREDECLARED x
                         else match universal x with Some _ => UNIVERSAL x | None => UNSUPPORTED "static:undefined" end
               end
-    end.
+    end end.
 
-  Definition gen_set (x : string) : insn :=
+  Definition gen_set (cs : list (string * nat)) (x : string) : insn :=
+    match assoc x cs with
+    | Some i => SETLOCAL i
+    | None =>
     match index_of x locals with
     | Some i => SETLOCAL i
     | None => match gidx p x with Some j => SETGLOBAL j | None => UNSUPPORTED "static:unbound-assignment" end
-    end.
+    end end.
 
   Definition aug_insn (o : binop) (ps : pos) : list insn :=
     match o with
@@ -72,69 +80,94 @@ Section Gen.
     end.
 
   (* code of an expression, and of the same expression as a branch condition
-     (fcomp.ifelse): `snd (gen e) t f` continues t instructions past its end when
+     (fcomp.ifelse): `snd (gen cs e) t f` continues t instructions past its end when
      e is true and f past its end otherwise *)
   Definition dflt (c : list insn) : list insn * (nat -> nat -> list insn) :=
     (c, fun t f => c ++ [RCJMP (1 + t); RJMP f]).
 
-  Fixpoint gen (e : expr) {struct e} : list insn * (nat -> nat -> list insn) :=
+  Fixpoint gen (cs : list (string * nat)) (e : expr) {struct e} : list insn * (nat -> nat -> list insn) :=
     match e with
-    | EName x ps => dflt [gen_name x ps]
+    | EName x ps => dflt [gen_name cs x ps]
     | EInt z => dflt [CONSTANT (VInt z)]
     | EStr s => dflt [CONSTANT (VStr s)]
     | EUnsup t => dflt [UNSUPPORTED t]
-    | EParen e => dflt (fst (gen e))
-    | EUnary UNot _ x => (fst (gen x) ++ [NOT], fun t f => snd (gen x) f t)
-    | EUnary o ps x => dflt (fst (gen x) ++ [UNARY o ps])
+    | EParen e => dflt (fst (gen cs e))
+    | EUnary UNot _ x => (fst (gen cs x) ++ [NOT], fun t f => snd (gen cs x) f t)
+    | EUnary o ps x => dflt (fst (gen cs x) ++ [UNARY o ps])
     | EBinary NotIn ps x y =>
-        let c := fst (gen x) ++ fst (gen y) in
+        let c := fst (gen cs x) ++ fst (gen cs y) in
         (c ++ [BINARY In ps; NOT], fun t f => c ++ [BINARY In ps; RCJMP (1 + f); RJMP t])
-    | EBinary o ps x y => dflt (fst (gen x) ++ fst (gen y) ++ [BINARY o ps])
+    | EBinary o ps x y => dflt (fst (gen cs x) ++ fst (gen cs y) ++ [BINARY o ps])
     | EOr x y =>
-        let cy := fst (gen y) in
-        (fst (gen x) ++ [DUP; RCJMP (1 + length cy); POP] ++ cy,
-         fun t f => let c := snd (gen y) t f in snd (dflt (fst (gen x))) (length c + t) 0 ++ c)
+        let cy := fst (gen cs y) in
+        (fst (gen cs x) ++ [DUP; RCJMP (1 + length cy); POP] ++ cy,
+         fun t f => let c := snd (gen cs y) t f in snd (dflt (fst (gen cs x))) (length c + t) 0 ++ c)
     | EAnd x y =>
-        let cy := fst (gen y) in
-        (fst (gen x) ++ [DUP; RCJMP 1; RJMP (1 + length cy); POP] ++ cy,
-         fun t f => let c := snd (gen y) t f in snd (dflt (fst (gen x))) 0 (length c + f) ++ c)
+        let cy := fst (gen cs y) in
+        (fst (gen cs x) ++ [DUP; RCJMP 1; RJMP (1 + length cy); POP] ++ cy,
+         fun t f => let c := snd (gen cs y) t f in snd (dflt (fst (gen cs x))) 0 (length c + f) ++ c)
     | ECond c t f =>
-        let ct := fst (gen t) in
-        let cf := fst (gen f) in
-        dflt (snd (gen c) 0 (length ct + 1) ++ ct ++ [RJMP (length cf)] ++ cf)
-    | ETuple es => dflt (flat_map (fun e => fst (gen e)) es ++ [MAKETUPLE (length es)])
-    | EList es => dflt (flat_map (fun e => fst (gen e)) es ++ [MAKELIST (length es)])
+        let ct := fst (gen cs t) in
+        let cf := fst (gen cs f) in
+        dflt (snd (gen cs c) 0 (length ct + 1) ++ ct ++ [RJMP (length cf)] ++ cf)
+    | ETuple es => dflt (flat_map (fun e => fst (gen cs e)) es ++ [MAKETUPLE (length es)])
+    | EList es => dflt (flat_map (fun e => fst (gen cs e)) es ++ [MAKELIST (length es)])
     | EDict kvs =>
-        dflt (MAKEDICT :: flat_map (fun kv => DUP :: fst (gen (fst (fst kv))) ++ fst (gen (snd (fst kv))) ++ [SETDICTUNIQ (snd kv)]) kvs)
-    | EIndex x y ps => dflt (fst (gen x) ++ fst (gen y) ++ [INDEX ps])
-    | EDot x name ps => dflt (fst (gen x) ++ [ATTR name ps])
+        dflt (MAKEDICT :: flat_map (fun kv => DUP :: fst (gen cs (fst (fst kv))) ++ fst (gen cs (snd (fst kv))) ++ [SETDICTUNIQ (snd kv)]) kvs)
+    | EIndex x y ps => dflt (fst (gen cs x) ++ fst (gen cs y) ++ [INDEX ps])
+    | EDot x name ps => dflt (fst (gen cs x) ++ [ATTR name ps])
     | ECall fn args ps =>
         let is_pos a := match a with APos _ => true | _ => false end in
         let is_named a := match a with ANamed _ _ => true | _ => false end in
         let is_star a := match a with AStar _ => true | _ => false end in
         let is_ss a := match a with AStarStar _ => true | _ => false end in
         let code a := match a with
-                      | APos e | AStar e | AStarStar e => fst (gen e)
-                      | ANamed k e => CONSTANT (VStr k) :: fst (gen e) end in
-        dflt (fst (gen fn)
+                      | APos e | AStar e | AStarStar e => fst (gen cs e)
+                      | ANamed k e => CONSTANT (VStr k) :: fst (gen cs e) end in
+        dflt (fst (gen cs fn)
         ++ flat_map (fun a => if is_pos a || is_named a then code a else []) args
         ++ flat_map (fun a => if is_star a then code a else []) args
         ++ flat_map (fun a => if is_ss a then code a else []) args
         ++ [CALL ((if existsb is_star args then 1 else 0) + (if existsb is_ss args then 2 else 0))
                  (length (filter is_pos args)) (length (filter is_named args)) ps])
     | ELambda _ _ _ _ => dflt [UNSUPPORTED "compile:lambda"]
-    | EComp _ _ _ _ _ => dflt [UNSUPPORTED "compile:comprehension"]
+    | EComp curly body bodyv cp cls slots =>
+        (* fcomp.comprehension: accumulator, then the clauses as nested loops / tests *)
+        let cs' := combine (comp_vars cls) slots ++ cs in
+        let ga := fix ga (t : target) (ps : pos) {struct t} : list insn :=
+                    match t with
+                    | TName x _ => [gen_set cs' x]
+                    | TIndex x y pi => fst (gen cs' x) ++ [EXCH] ++ fst (gen cs' y) ++ [EXCH; SETINDEX pi]
+                    | TDot x name pd => fst (gen cs' x) ++ [EXCH; SETFIELD name pd]
+                    | TSeq ts => UNPACK (length ts) ps :: flat_map (fun t => ga t ps) ts
+                    end in
+        let loop (ce ca inner : list insn) (ps : pos) :=
+              ce ++ [ITERPUSH ps; RITERJMP (length ca + length inner + 1)] ++ ca ++ inner
+              ++ [RJMPB (length ca + length inner + 2); ITERPOP] in
+        let rest := fix cc (l : list clause) {struct l} : list insn :=
+                      match l with
+                      | [] => if curly then DUP :: fst (gen cs' body) ++ fst (gen cs' bodyv) ++ [SETDICT cp]
+                              else DUP :: fst (gen cs' body) ++ [APPEND]
+                      | CIf c :: r => let inner := cc r in snd (gen cs' c) 0 (length inner) ++ inner
+                      | CFor t e ps :: r => loop (fst (gen cs' e)) (ga t ps) (cc r) ps
+                      end in
+        match cls with
+        | CFor t e0 ps :: r =>
+            dflt ((if curly then [MAKEDICT] else [MAKELIST 0]) ++ loop (fst (gen cs e0)) (ga t ps) (rest r) ps)
+        | _ => dflt [UNSUPPORTED "static:comprehension"]
+        end
     | ESlice x lo hi st ps =>
-        let o (e : option expr) := match e with Some e => fst (gen e) | None => [NONE] end in
-        dflt (fst (gen x) ++ o lo ++ o hi ++ o st ++ [SLICE ps])
+        let o (e : option expr) := match e with Some e => fst (gen cs e) | None => [NONE] end in
+        dflt (fst (gen cs x) ++ o lo ++ o hi ++ o st ++ [SLICE ps])
     end.
 
-  Definition gen_expr (e : expr) : list insn := fst (gen e).
-  Definition gen_cond (e : expr) (t f : nat) : list insn := snd (gen e) t f.
+  (* outside comprehensions *)
+  Definition gen_expr (e : expr) : list insn := fst (gen [] e).
+  Definition gen_cond (e : expr) (t f : nat) : list insn := snd (gen [] e) t f.
 
   Fixpoint gen_assign (t : target) (ps : pos) {struct t} : list insn :=
     match t with
-    | TName x _ => [gen_set x]
+    | TName x _ => [gen_set [] x]
     | TIndex x y pi => gen_expr x ++ [EXCH] ++ gen_expr y ++ [EXCH; SETINDEX pi]
     | TDot x name pd => gen_expr x ++ [EXCH; SETFIELD name pd]
     | TSeq ts => UNPACK (length ts) ps :: flat_map (fun t => gen_assign t ps) ts
@@ -154,7 +187,7 @@ Section Gen.
     | SExpr (EInt _) | SExpr (EStr _) => []
     | SExpr e => gen_expr e ++ [POP]
     | SAssign t e ps => gen_expr e ++ gen_assign t ps
-    | SAug o (TName x px) e ps => [gen_name x px] ++ gen_expr e ++ aug_insn o ps ++ [gen_set x]
+    | SAug o (TName x px) e ps => [gen_name [] x px] ++ gen_expr e ++ aug_insn o ps ++ [gen_set [] x]
     | SAug o (TIndex x y pi) e ps =>
         gen_expr x ++ gen_expr y ++ [DUP2; INDEX pi] ++ gen_expr e ++ aug_insn o ps ++ [SETINDEX pi]
     | SAug o (TDot x name pd) e ps =>
@@ -180,10 +213,10 @@ Section Gen.
     | SReturn (Some e) => gen_expr e ++ [RETURN]
     | SDef fid name ps _ _ =>
         let '(c, n) := gen_defaults ps false in
-        c ++ [MAKETUPLE n; MAKEFUNC fid; gen_set name]
+        c ++ [MAKETUPLE n; MAKEFUNC fid; gen_set [] name]
     | SLoad m names ps =>
         map (fun tf => CONSTANT (VStr (snd tf))) names ++ [CONSTANT (VStr m); LOAD (length names) ps]
-        ++ map (fun tf => gen_set (fst tf)) (rev names)
+        ++ map (fun tf => gen_set [] (fst tf)) (rev names)
     | SUnsup t => [UNSUPPORTED t]
     end.
 
@@ -264,10 +297,10 @@ Fixpoint fold_expr (fuel : nat) (e : expr) {struct fuel} : expr :=
                                     | AStar x => AStar (f x) | AStarStar x => AStarStar (f x) end) args) ps
     | ELambda fid ps body pp =>
         ELambda fid (map (fun q => match q with PDefault x d => PDefault x (f d) | _ => q end) ps) (f body) pp
-    | EComp c b bv cp cls =>
+    | EComp c b bv cp cls sl =>
         EComp c (f b) (f bv) cp (map (fun cl => match cl with
                                                | CFor t x ps => CFor (ft t) (f x) ps
-                                               | CIf x => CIf (f x) end) cls)
+                                               | CIf x => CIf (f x) end) cls) sl
     | ESlice x lo hi st ps => ESlice (f x) (option_map f lo) (option_map f hi) (option_map f st) ps
     end
   end
@@ -307,6 +340,172 @@ Fixpoint fold_stmt (fuel : nat) (s : stmt) {struct fuel} : stmt :=
 Definition fold_prog (p : program) : program :=
   {| p_opts := p_opts p; p_body := map (fold_stmt 1000) (p_body p) |}.
 
+(* ---------------------------------------------------------------- slot assignment (resolve.go: bind / bindLocal)
+   One traversal in the resolver's order: a function-level name gets the next
+   slot when first bound; every comprehension variable gets a fresh slot when
+   first bound in its block (recorded under a name no identifier can have).
+   The traversal returns the slot names and the syntax with each comprehension
+   annotated with the slots of its variables.  Nested function bodies are
+   numbered when they are compiled themselves. *)
+Definition mangle (x : string) : string := ("." ++ x)%string.
+
+Definition bind_fn (top : bool) (x : string) (ls : list string) : list string :=
+  if top then ls else if str_in x ls then ls else ls ++ [x].
+
+Fixpoint num_list {A} (f : list string -> A -> A * list string) (ls : list string) (l : list A) : list A * list string :=
+  match l with
+  | [] => ([], ls)
+  | a :: r => let '(a', ls1) := f ls a in let '(r', ls2) := num_list f ls1 r in (a' :: r', ls2)
+  end.
+
+Definition num_opt (f : list string -> expr -> expr * list string) (ls : list string) (o : option expr) : option expr * list string :=
+  match o with Some e => let '(e', ls1) := f ls e in (Some e', ls1) | None => (None, ls) end.
+
+Fixpoint num_expr (fuel : nat) (ls : list string) (e : expr) {struct fuel} : expr * list string :=
+  match fuel with
+  | O => (e, ls)
+  | S fuel =>
+    let ne := num_expr fuel in
+    match e with
+    | EName _ _ | EInt _ | EStr _ | EUnsup _ => (e, ls)
+    | EParen x => let '(x', l1) := ne ls x in (EParen x', l1)
+    | EUnary o ps x => let '(x', l1) := ne ls x in (EUnary o ps x', l1)
+    | EBinary o ps x y => let '(x', l1) := ne ls x in let '(y', l2) := ne l1 y in (EBinary o ps x' y', l2)
+    | EAnd x y => let '(x', l1) := ne ls x in let '(y', l2) := ne l1 y in (EAnd x' y', l2)
+    | EOr x y => let '(x', l1) := ne ls x in let '(y', l2) := ne l1 y in (EOr x' y', l2)
+    | ECond c t f => let '(c', l1) := ne ls c in let '(t', l2) := ne l1 t in let '(f', l3) := ne l2 f in (ECond c' t' f', l3)
+    | ETuple es => let '(es', l1) := num_list ne ls es in (ETuple es', l1)
+    | EList es => let '(es', l1) := num_list ne ls es in (EList es', l1)
+    | EDict kvs =>
+        let '(kvs', l1) := num_list (fun l kv => let '(k', a) := ne l (fst (fst kv)) in
+                                                 let '(v', b) := ne a (snd (fst kv)) in ((k', v', snd kv), b)) ls kvs in
+        (EDict kvs', l1)
+    | EIndex x y ps => let '(x', l1) := ne ls x in let '(y', l2) := ne l1 y in (EIndex x' y' ps, l2)
+    | EDot x name ps => let '(x', l1) := ne ls x in (EDot x' name ps, l1)
+    | ECall fn args ps =>
+        let '(fn', l1) := ne ls fn in
+        let '(args', l2) := num_list (fun l a => match a with
+                                                 | APos x => let '(x', b) := ne l x in (APos x', b)
+                                                 | ANamed k x => let '(x', b) := ne l x in (ANamed k x', b)
+                                                 | AStar x => let '(x', b) := ne l x in (AStar x', b)
+                                                 | AStarStar x => let '(x', b) := ne l x in (AStarStar x', b) end) l1 args in
+        (ECall fn' args' ps, l2)
+    | ELambda fid ps body pp =>
+        let '(ps', l1) := num_list (fun l q => match q with
+                                               | PDefault x d => let '(d', b) := ne l d in (PDefault x d', b)
+                                               | _ => (q, l) end) ls ps in
+        (ELambda fid ps' body pp, l1)
+    | ESlice x lo hi st ps =>
+        let '(x', l1) := ne ls x in let '(lo', l2) := num_opt ne l1 lo in
+        let '(hi', l3) := num_opt ne l2 hi in let '(st', l4) := num_opt ne l3 st in
+        (ESlice x' lo' hi' st' ps, l4)
+    | EComp c b bv cp cls _ =>
+        (* targets of for clauses bind in the comprehension's block: state (slot names, block variables) *)
+        let ct := fix ct (st : list string * list (string * nat)) (t : target) {struct t} : target * (list string * list (string * nat)) :=
+                    match t with
+                    | TName x _ => (t, if str_in x (map fst (snd st)) then st
+                                       else ((fst st ++ [mangle x])%list, (snd st ++ [(x, length (fst st))])%list))
+                    | TIndex x y pi => let '(x', l1) := ne (fst st) x in let '(y', l2) := ne l1 y in (TIndex x' y' pi, (l2, snd st))
+                    | TDot x name pd => let '(x', l1) := ne (fst st) x in (TDot x' name pd, (l1, snd st))
+                    | TSeq ts => let r := (fix go (st : list string * list (string * nat)) (l : list target) :=
+                                             match l with
+                                             | [] => ([], st)
+                                             | a :: r => let '(a', s1) := ct st a in let '(r', s2) := go s1 r in (a' :: r', s2)
+                                             end) st ts in (TSeq (fst r), snd r)
+                    end in
+        match cls with
+        | CFor t e0 ps :: rest =>
+            let '(e0', l1) := ne ls e0 in
+            let '(t', st1) := ct (l1, []) t in
+            let '(rest', st2) :=
+              (fix go (st : list string * list (string * nat)) (l : list clause) :=
+                 match l with
+                 | [] => ([], st)
+                 | CIf x :: r => let '(x', l2) := ne (fst st) x in
+                                 let '(r', s2) := go (l2, snd st) r in (CIf x' :: r', s2)
+                 | CFor t1 e1 p1 :: r =>
+                     let '(t1', s1) := ct st t1 in
+                     let '(e1', l2) := ne (fst s1) e1 in
+                     let '(r', s2) := go (l2, snd s1) r in (CFor t1' e1' p1 :: r', s2)
+                 end) st1 rest in
+            let '(b', l3) := ne (fst st2) b in
+            let '(bv', l4) := ne l3 bv in
+            (EComp c b' bv' cp (CFor t' e0' ps :: rest') (map snd (snd st2)), l4)
+        | _ => (e, ls)
+        end
+    end
+  end.
+
+Fixpoint num_target (top : bool) (ls : list string) (t : target) {struct t} : target * list string :=
+  match t with
+  | TName x _ => (t, bind_fn top x ls)
+  | TIndex x y pi => let '(x', l1) := num_expr 1000 ls x in let '(y', l2) := num_expr 1000 l1 y in (TIndex x' y' pi, l2)
+  | TDot x name pd => let '(x', l1) := num_expr 1000 ls x in (TDot x' name pd, l1)
+  | TSeq ts => let '(ts', l1) := (fix go (ls : list string) (l : list target) :=
+                                    match l with
+                                    | [] => ([], ls)
+                                    | a :: r => let '(a', l1) := num_target top ls a in
+                                                let '(r', l2) := go l1 r in (a' :: r', l2)
+                                    end) ls ts in (TSeq ts', l1)
+  end.
+
+Fixpoint num_stmt (fuel : nat) (top : bool) (ls : list string) (s : stmt) {struct fuel} : stmt * list string :=
+  match fuel with
+  | O => (s, ls)
+  | S fuel =>
+    let ne := num_expr 1000 in
+    let nb := num_list (num_stmt fuel top) in
+    match s with
+    | SExpr e => let '(e', l1) := ne ls e in (SExpr e', l1)
+    | SAssign t e ps => let '(e', l1) := ne ls e in let '(t', l2) := num_target top l1 t in (SAssign t' e' ps, l2)
+    | SAug o t e ps => let '(e', l1) := ne ls e in let '(t', l2) := num_target top l1 t in (SAug o t' e' ps, l2)
+    | SIf c tb fb => let '(c', l1) := ne ls c in let '(tb', l2) := nb l1 tb in let '(fb', l3) := nb l2 fb in (SIf c' tb' fb', l3)
+    | SWhile c b => let '(c', l1) := ne ls c in let '(b', l2) := nb l1 b in (SWhile c' b', l2)
+    | SFor t e b ps =>
+        let '(e', l1) := ne ls e in let '(t', l2) := num_target top l1 t in let '(b', l3) := nb l2 b in (SFor t' e' b' ps, l3)
+    | SReturn (Some e) => let '(e', l1) := ne ls e in (SReturn (Some e'), l1)
+    | SDef fid name ps body pp =>
+        let l0 := bind_fn top name ls in
+        let '(ps', l1) := num_list (fun l q => match q with
+                                               | PDefault x d => let '(d', b) := ne l d in (PDefault x d', b)
+                                               | _ => (q, l) end) l0 ps in
+        (SDef fid name ps' body pp, l1)
+    | SLoad m names ps => (s, fold_left (fun l tf => if str_in (fst tf) l then l else l ++ [fst tf]) names ls)
+    | _ => (s, ls)
+    end
+  end.
+
+(* slot names of a function (parameters first) and its body with comprehension slots filled in *)
+Definition number_fun (fd : fundef) : list stmt * list string :=
+  num_list (num_stmt 1000 false) (add_all (param_names (fd_params fd)) []) (fd_body fd).
+Definition layout (fd : fundef) : list string := snd (number_fun fd).
+Definition number_top (p : program) : list stmt * list string := num_list (num_stmt 1000 true) [] (p_body p).
+Definition layout_top (p : program) : list string := snd (number_top p).
+
+(* annotate every comprehension of the program: first the bodies of the defs nested in a statement ... *)
+Fixpoint number_defs (fuel : nat) (s : stmt) {struct fuel} : stmt :=
+  match fuel with
+  | O => s
+  | S fuel =>
+    let nd := map (number_defs fuel) in
+    match s with
+    | SIf c tb fb => SIf c (nd tb) (nd fb)
+    | SWhile c b => SWhile c (nd b)
+    | SFor t e b ps => SFor t e (nd b) ps
+    | SDef fid name ps body pp =>
+        let body1 := nd body in
+        SDef fid name ps (fst (num_list (num_stmt 1000 false) (add_all (param_names ps) []) body1)) pp
+    | _ => s
+    end
+  end.
+(* ... then the module level itself *)
+Definition number_prog (p : program) : program :=
+  {| p_opts := p_opts p;
+     p_body := fst (num_list (num_stmt 1000 true) [] (map (number_defs 1000) (p_body p))) |}.
+
+Definition unmangle (x : string) : string :=
+  match x with String c r => if Nat.eqb (Ascii.nat_of_ascii c) 46 then r else x | _ => x end.
+
 (* every def of the program, at any statement depth *)
 Fixpoint defs_stmt (s : stmt) : list (nat * fundef) :=
   match s with
@@ -319,17 +518,17 @@ Fixpoint defs_stmt (s : stmt) : list (nat * fundef) :=
 Definition all_defs (p : program) : list (nat * fundef) := flat_map defs_stmt (p_body p).
 
 Definition compile_fun (p : program) (fd : fundef) : funcode :=
-  let ls := locals_of fd in
+  let ls := layout fd in
   {| fc_name := fd_name fd; fc_code := gen_body p ls (fd_body fd); fc_nlocals := length ls;
      fc_params := fd_params fd; fc_cells := []; fc_free := [] |}.
 
 Definition compile_prog (p : program) : cprog :=
-  let ls := file_names p in
+  let ls := layout_top p in
   {| cp_top := {| fc_name := "<toplevel>"; fc_code := gen_body p ls (p_body p); fc_nlocals := length ls;
                   fc_params := []; fc_cells := []; fc_free := [] |};
      cp_funs := map (fun d => (fst d, compile_fun p (snd d))) (all_defs p);
      cp_recursion := o_recursion (p_opts p) |}.
 
 Definition run_compiled (p : program) (fuel : nat) : option (vresult * nat) :=
-  let cp := compile_prog (fold_prog p) in
+  let cp := compile_prog (number_prog (fold_prog p)) in
   run cp (fname p) fuel (init_state cp (length (global_names p))).
